@@ -1,6 +1,7 @@
 package props
 
 import (
+	"compress/gzip"
 	"bytes"
 	"fmt"
 	"net/http"
@@ -20,6 +21,9 @@ import (
 
 func acceptsToken(ae, tok string) bool {
 	for _, p := range strings.Split(ae, ",") {
+		if i := strings.Index(p, ";"); i >= 0 { // a coding with a (positive) quality value is an accepted coding
+			p = p[:i]
+		}
 		if strings.EqualFold(strings.TrimSpace(p), tok) {
 			return true
 		}
@@ -65,7 +69,7 @@ func fillVia(resp *cache.HTTPResponse, ae string) (enc string, body []byte, hdr 
 	return c.GetHeader("Content-Encoding"), b, c.Header().Clone(), c.StatusCode, nil
 }
 
-var c13Clients = []string{"", "gzip", "br", "gzip, br", "br, gzip", "deflate", "deflate, gzip", "identity", "zstd"}
+var c13Clients = []string{"", "gzip", "br", "gzip, br", "br, gzip", "deflate", "deflate, gzip", "identity", "zstd", "gzip;q=0.8, br;q=0.9", "br; q=1.0"}
 
 func init() {
 	Register("C13", func(c *Ctx) {
@@ -75,7 +79,7 @@ func init() {
 		compress.VerifFreshRegistries()
 		if c.Want("table") {
 			st := c.Stat("table", "enumeration")
-			st.Bounds = "9 clients x 7 variant subsets x 9 sizes x 3 type cases x 3 bodies"
+			st.Bounds = "11 clients (two with positive quality values) x 7 variant subsets x 9 sizes x 3 type cases x 3 bodies"
 			var idx int64
 			cells := map[uint64]struct{}{}
 			custom := regexp.MustCompile(`image`)
@@ -399,6 +403,12 @@ func init() {
 							hdr := http.Header{"Content-Type": {ct}}
 							compress.VerifFreshRegistries()
 							compress.Reset([]config.CompressConfig{{Name: "lv1", Levels: map[string]uint{"gzip": 1, "br": 1}}})
+							// per-request compressions at the server's own profile happen before (uncacheable traffic): what is
+							// stored afterwards must still be the best-compression profile's output
+							for _, pae := range []string{"gzip", "br", "gzip"} {
+								pre := &cache.HTTPResponse{StatusCode: 200, Header: http.Header{"Content-Type": {"text/plain"}}, RawBody: []byte(c20Payload(3000)), CompressSrv: srvProfile, CompressMinLength: 1024}
+								_, _, _, _, _ = fillVia(pre, pae)
+							}
 							resp, err := cache.NewHTTPResponse(200, hdr, oenc, data)
 							if err != nil {
 								c.Violation("store-once", "new-response-error", err.Error(), nil, nil, nil)
@@ -422,6 +432,15 @@ func init() {
 								}
 								best := compress.Get(compress.BestCompression)
 								if oenc != "gzip" {
+									// (reference bytes from the standard library at the documented level, not from pike's own encoder,
+									// which may carry state from earlier calls)
+									var gb bytes.Buffer
+									gw, _ := gzip.NewWriterLevel(&gb, gzip.BestCompression)
+									gw.Write(raw)
+									gw.Close()
+									if !bytes.Equal(gb.Bytes(), resp.GzipBody) {
+										c.Violation("store-once", "gzip-not-best-profile-bytes", fmt.Sprintf("stored %d bytes, gzip at level 9 gives %d", len(resp.GzipBody), gb.Len()), nil, kase, nil)
+									}
 									if wantG, _ := best.Gzip(raw); !bytes.Equal(wantG, resp.GzipBody) {
 										c.Violation("store-once", "gzip-not-best-profile-bytes", fmt.Sprintf("stored %d bytes, best profile gives %d", len(resp.GzipBody), len(wantG)), nil, kase, nil)
 									}
